@@ -1,7 +1,7 @@
 #!/usr/bin/env python3
 """Shared machinery for the /verif checks: building, running TLC, validating traces,
 writing evidence, known findings.  Everything runs offline; nothing is kept under /tmp."""
-import json, os, re, subprocess, sys, time, shutil, hashlib
+import json, os, re, subprocess, sys, time, shutil, hashlib, threading
 
 ROOT = os.path.dirname(os.path.dirname(os.path.abspath(__file__)))
 REPO = os.environ.get("VERIF_REPO", "/repo")
@@ -19,10 +19,26 @@ def log(*a):
     print(*a, flush=True)
 
 
+# Environment perturbation: every second execution (per driver, per check process) of these drivers runs under the
+# runtime's signal storm (SIGUSR2 without SA_RESTART to random threads every 400 us: blocking calls of the library return
+# EINTR at arbitrary moments).  VERIF_STORM=0 disables it, VRT_SIGNAL_STORM_US in the environment overrides it.
+STORM_DRIVERS = {"drv_lane", "drv_root", "drv_mainq", "drv_chain", "drv_apply", "drv_source", "drv_cancel", "drv_block",
+                 "drv_refs", "drv_timer", "drv_group", "drv_semaphore", "drv_once"}
+_storm_count = {}
+_storm_lock = threading.Lock()
+
+
 def sh(cmd, timeout=None, env=None, cwd=None, check=False):
     e = dict(os.environ)
     if env:
         e.update(env)
+    if not isinstance(cmd, str) and cmd and "VRT_SIGNAL_STORM_US" not in e and os.environ.get("VERIF_STORM", "1") != "0":
+        name = os.path.basename(str(cmd[0]))
+        if name in STORM_DRIVERS:
+            with _storm_lock:
+                k = _storm_count[name] = _storm_count.get(name, 0) + 1
+            if k % 2 == 0:
+                e["VRT_SIGNAL_STORM_US"] = "400"
     try:
         p = subprocess.run(cmd, shell=isinstance(cmd, str), capture_output=True, text=True,
                            timeout=timeout, env=e, cwd=cwd, errors="replace")
